@@ -46,6 +46,7 @@ type Run struct {
 	AllocBytes uint64 // bytes allocated during the run (measured for C07 only)
 	Discard   string // non-empty: the run cannot be judged (counted, never a verdict)
 	HS        *HSRun
+	Conns     []*SimConn // every simulated connection end of the run, in creation order (pair k = ends 2k, 2k+1)
 }
 
 func (r *Run) fail(prop, rule, sig, format string, a ...interface{}) {
@@ -165,6 +166,9 @@ func execIn(t *testing.T, scn *Scenario, tape []int32, run *Run) {
 				run.Panics = append(run.Panics, tk.Name+": "+tk.Panic)
 			}
 		}
+	}
+	for i := 0; i < s.connCount(); i++ {
+		run.Conns = append(run.Conns, s.connAt(i))
 	}
 	run.Stats = s.stats
 	run.Tape = s.ch.tape
